@@ -19,3 +19,20 @@ def collect(P):
     # block index (index/v3.rs) and file format version (lib.rs)
     P.int_const("SST_STORE_BLOCK_LEN", "sstable/src/index/v3.rs", r"^const STORE_BLOCK_LEN: usize = ([^;]+);")
     P.int_const("SST_VERSION", "sstable/src/lib.rs", r"^const SSTABLE_VERSION: u32 = ([^;]+);", "u32")
+    # --- code shapes (flags: 1 = the pattern is present) ---
+    # Writer::insert_key ordering assertion: skipped only for the first key of a block, index accesses guarded
+    # (shape after the F11 fix) ...
+    P.flag("SST_ORDER_CHECK_BLOCK_START", "sstable/src/lib.rs",
+           r"let first_key_of_the_block = self\.first_ordinal_of_the_block == self\.num_terms;.*?"
+           r"\|\| first_key_of_the_block\s*\|\| \(keep_len < self\.previous_key\.len\(\)\s*&& keep_len < key\.len\(\)\s*"
+           r"&& self\.previous_key\[keep_len\] < key\[keep_len\]\);")
+    # ... or skipped whenever previous_key is empty, unguarded index accesses (shape with F11)
+    P.flag("SST_ORDER_CHECK_PREV_EMPTY", "sstable/src/lib.rs",
+           r"\|\| self\.previous_key\.is_empty\(\)\s*\|\| self\.previous_key\[keep_len\] < key\[keep_len\];")
+    # Dictionary::file_slice_for_range: an end offset before the start offset selects nothing (after the F151 fix) ...
+    P.flag("SST_RANGE_INVERTED_EMPTY", "sstable/src/dictionary.rs",
+           r"if let \(Bound::Included\(start\), Bound::Excluded\(end\)\) = \(start_bound, end_bound\) \{\s*if end < start \{\s*"
+           r"return FileSlice::empty\(\);\s*\}\s*\}\s*self\.sstable_slice\.slice\(\(start_bound, end_bound\)\)")
+    # ... or the offsets go to FileSlice::slice unchecked (shape with F151)
+    P.flag("SST_RANGE_SLICE_UNGUARDED", "sstable/src/dictionary.rs",
+           r"\.unwrap_or\(Bound::Unbounded\);\s*self\.sstable_slice\.slice\(\(start_bound, end_bound\)\)")
